@@ -12,7 +12,7 @@
 
    outputs:
      1 nstages (ngroups (nsys id..)..)..       the stage/group tree
-     2 id nr r.. nw w..                        accessor reads()/writes() of system id
+     2 id nr r.. nw w..                        accessor reads()/writes() of system id (each sorted)
      6 h nr r.. nw w.. (res state)..           declaration of h and the flags seen after fetch
      4 threads round n e..                     log: +(id+1) start, -(id+1) end   (implementation only)
      5 dispatches counter_violations panics    (implementation only)
@@ -100,7 +100,14 @@ Definition dops_of (xs : list xop) : list dop :=
                      | _ => []
                      end) xs.
 
-Definition zs (l : list N) : list Z := map Z.of_N l.
+(* reads()/writes() are compared as sorted lists: their order means nothing *)
+Fixpoint zinsert (x : Z) (l : list Z) : list Z :=
+  match l with
+  | [] => [x]
+  | y :: l' => if Z.leb x y then x :: l else y :: zinsert x l'
+  end.
+Definition zsort (l : list Z) : list Z := fold_right zinsert [] l.
+Definition zs (l : list N) : list Z := zsort (map Z.of_N l).
 
 Definition enc_tree (sts : list stage) : list Z :=
   1%Z :: Z.of_nat (length sts) ::
